@@ -36,6 +36,11 @@ HOSTILE_SQL = [
     # (object whose sql is replaced, new sql)
     ("ser", "CREATE TABLE ser(a, b, z, PRIMARY KEY(nope))"),
     ("ser", "CREATE TABLE ser(a, b, z, PRIMARY KEY(nope, a))"),
+    ("ser", "CREATE TABLE ser(a, b, z, PRIMARY KEY(a + 1))"),
+    ("ser", "CREATE TABLE ser(a, b, z, PRIMARY KEY(a, b || z)) WITHOUT ROWID"),
+    ("ser", "CREATE TABLE ser(a, b, z, UNIQUE(lower(b)))"),
+    ("ser", "CREATE TABLE ser(a, b, z, UNIQUE(a, (b)))"),
+    ("wr", "CREATE TABLE wr(k, v, PRIMARY KEY(k + 0)) WITHOUT ROWID"),
     ("ser", "CREATE TABLE ser(a, b, z, UNIQUE(nope))"),
     ("ser", "CREATE TABLE ser(a, b, z, PRIMARY KEY(nope)) WITHOUT ROWID"),
     ("ser", "CREATE TABLE ser(a, b, z, PRIMARY KEY(a)) WITHOUT ROWID"),
